@@ -802,6 +802,41 @@ pub fn families_c14(subjects: &[Subj]) -> Vec<Pair> {
 			}
 		}
 	}
+	// K3b: nothing that carries a key or a hold can be duplicated or conjured up
+	{
+		let header = format!(
+			"{PRELUDE}\npub trait HasRaw {{ type Raw; }}\nimpl<T, R> HasRaw for happylock::mutex::Mutex<T, R> {{ type Raw = R; }}\nimpl<T, R> HasRaw for happylock::rwlock::RwLock<T, R> {{ type Raw = R; }}\ntype RawM = <happylock::mutex::ParkingMutex<()> as HasRaw>::Raw;\ntype RawR = <happylock::rwlock::ParkingRwLock<()> as HasRaw>::Raw;\n"
+		);
+		let mref = "MutexRef<'static, i32, RawM>";
+		let types: Vec<(&str, String)> = vec![
+			("ThreadKey", "ThreadKey".into()),
+			("MutexGuard", "MutexGuard<'static, i32, RawM>".into()),
+			("MutexRef", mref.into()),
+			("RwLockReadGuard", "RwLockReadGuard<'static, i32, RawR>".into()),
+			("RwLockWriteGuard", "RwLockWriteGuard<'static, i32, RawR>".into()),
+			("RwLockReadRef", "RwLockReadRef<'static, i32, RawR>".into()),
+			("RwLockWriteRef", "RwLockWriteRef<'static, i32, RawR>".into()),
+			("LockGuard<(MutexRef,)>", format!("LockGuard<({mref},)>")),
+			("LockGuard<i32>", "LockGuard<i32>".into()),
+			("PoisonGuard<MutexRef>", format!("PoisonGuard<'static, {mref}>")),
+			("PoisonRef<MutexRef>", format!("PoisonRef<'static, {mref}>")),
+			("PoisonError<MutexGuard>", "PoisonError<MutexGuard<'static, i32, RawM>>".into()),
+			("TryLockPoisonableError<MutexRef>", format!("TryLockPoisonableError<'static, {mref}>")),
+		];
+		for (tn, ty) in &types {
+			for tr in ["Clone", "Copy", "Default"] {
+				let prog = |bound: &str| format!("{header}fn need<X{bound}>() {{}}\npub fn probe() {{\n//<<\n    need::<{ty}>();\n//>>\n}}\n");
+				v.push(Pair {
+					prop: "C14".into(),
+					family: format!("K3-key-or-hold-carrier-is-{tr}"),
+					name: tn.to_string(),
+					twin: prog(": ?Sized"),
+					offending: prog(&format!(": {tr}")),
+					std_offending: None,
+				});
+			}
+		}
+	}
 	// K11: key-less holds through the unsafe trait methods from safe code
 	for (lockname, ctor) in [("Mutex", "Mutex::new(0)"), ("RwLock", "RwLock::new(0)")] {
 		for (what, call) in [
@@ -841,6 +876,18 @@ pub fn families_c15(subjects: &[Subj]) -> Vec<Pair> {
 			&format!("    {}\n    drop(g);", s.use_ref("r")),
 			&format!("    drop(g);\n    {}", s.use_ref("r")),
 		));
+		// D1b: the same through AsRef / AsMut of the guard
+		if s.coll.is_none() && !s.pois {
+			let conv = if s.is_read() { "AsRef::<i32>::as_ref(&g)" } else { "AsMut::<i32>::as_mut(&mut g)" };
+			v.push(pair_from(
+				"C15",
+				"D1-reference-via-as_ref-outlives-guard",
+				n.clone(),
+				&wrap_fn(&format!("    let key = ThreadKey::get().unwrap();\n    {decl}\n    let mut g = {acq};\n    let r: {rm} i32 = {conv};\n@@\n", rm = s.rmut())),
+				&format!("    {}\n    drop(g);", s.use_ref("r")),
+				&format!("    drop(g);\n    {}", s.use_ref("r")),
+			));
+		}
 		// D2: a guard outlives its lock
 		v.push(pair_from(
 			"C15",
